@@ -435,9 +435,13 @@ class ZoneDomain(Domain):
         if v.tag == ('none',):
             s.facts.add(f'none:{x}')
         elif v.base is not None and v.lo == 0 == v.hi and v.base != x:
+            copied = False
             for k in ('none', 'some'):
                 if f'{k}:{v.base}' in s.facts:
                     s.facts.add(f'{k}:{x}')
+                    copied = True
+            if not copied and v.base.startswith('#'):
+                s.facts.add(f'some:{x}')      # ghost values (the number a text spells) are numbers
         elif v.base == x:
             pass
         else:
@@ -582,8 +586,14 @@ class ZoneDomain(Domain):
                 if isinstance(t, ast.Tuple) and isinstance(st.value, ast.Tuple) \
                         and len(t.elts) == len(st.value.elts):
                     vals = [(self.eval(v, s), v) for v in st.value.elts]
-                    ivs = [AVal(None, *self.interval(v, s), v.isint, (), v.tag if v.tag == ('none',) else ())
-                           for v, _ in vals]
+                    tnames = [self.varname(el) for el in t.elts]
+                    bases = {v.base for v, _ in vals if v.base is not None}
+                    if not (bases & {n for n in tnames if n}):
+                        # no target is read by another element: keep the relations
+                        ivs = [v for v, _ in vals]
+                    else:
+                        ivs = [AVal(None, *self.interval(v, s), v.isint, (), v.tag if v.tag == ('none',) else ())
+                               for v, _ in vals]
                     for el, v in zip(t.elts, ivs):
                         n = self.varname(el)
                         if n is not None:
